@@ -8,6 +8,7 @@ from pyg_base._sort import sort
 
 import pandas as pd
 import numpy as np
+import datetime
 from functools import partial 
 
 _series = '_is_series'
@@ -54,6 +55,8 @@ def bi_read(df, asof = None, what = -1):
     """
     if not is_bi(df) or what == 'all':
         return df
+    if asof is not None and not is_bi(asof) and not isinstance(asof, (datetime.datetime, np.datetime64)):
+        asof = dt(asof) ## a read time spelt the way Bi accepts a stamp ('2021-01-01', 20210101, a date): it was ignored (the latest values came back) or, for a date, refused
     if is_date(asof):
         df = df[df[_updated]<=asof]
     if is_bi(asof):
